@@ -1990,7 +1990,7 @@ pub(super) fn generate_method_definitions(
             #ret_buffer
             let mut serializer = Serializer {
                 writer: &mut __savefile_internal_data,
-                file_version: #version,
+                file_version: effective_version,
             };
 
             #return_ser_temp
